@@ -4,7 +4,7 @@ from checks import common_loops as cl, common_core as cc
 
 PID = "C27"
 RULE = ("Built with open-coroutine-core's `io_uring` feature (works on this kernel); one process per case: 1-32 coroutine callers (+ one plain-thread caller in a third of the cases) each issue 8-40 operations through the core entry points: "
-        "pwrite of a unique block at a unique offset + pread back, send + recv of a unique 8-byte tag on an own socketpair, and operations that must complete negatively (pwrite through a read-only descriptor -> EBADF, recv on a regular file -> ENOTSOCK, mkdirat of an existing directory -> EEXIST). "
+        "pwrite of a unique block at a unique offset + pread back, send + recv of a unique 8-byte tag on an own socketpair, and operations that must complete negatively (pwrite through a read-only descriptor -> EBADF, recv on a regular file -> ENOTSOCK, mkdirat of an existing directory -> EEXIST, mkdirat below /sys and pwrite to a write-sealed memfd -> whatever errno the native call reports, e.g. EPERM). "
         "Oracle per call: own byte count and own data (somebody else's data = cross-delivery), -1 with exactly the expected errno; a caller still blocked 5 s after the last completion anybody received = lost completion. "
         "Every fourth case forces the submit/register window of the plain-thread caller open with the `uring:after_submit` pause hook (80 ms). Distinct = (callers, threads, ops, forced).")
 
